@@ -78,6 +78,7 @@ def exact_part(ck, rng, thorough):
     n = 3000 if thorough else 150
     worst_ratio = F(0)
     notconv = 0
+    notconv_cfgs = []
     budget_hits = [0]
     for i in range(n):
         cfg, u0, nsteps, (lam, c, lamE) = gen_cfg(rng, thorough)
@@ -108,6 +109,7 @@ def exact_part(ck, rng, thorough):
         ck.case(key=key, nontrivial=converged, sample=meta)
         if not converged:
             notconv += 1
+            notconv_cfgs.append(dict(meta, residuals=[float(e['levels'][0]['residual']) for e in posts]))
             continue
         prev_end = list(u0)
         for sidx, e in enumerate(posts):
@@ -151,6 +153,11 @@ def exact_part(ck, rng, thorough):
             ck.violation('run() does not return the end value of the last step', meta, match={'kind': 'return_value'})
     ck.cov['exact_runs_not_converged_within_maxiter'] = notconv
     ck.cov['exact_runs_over_time_budget'] = budget_hits[0]
+    # the generator draws step sizes inside the contraction range: on the pinned tree every run converges (0 of 1200 over 8 seeds);
+    # more than a handful of runs that no longer reach restol within 60 iterations means the fixed point or the contraction changed
+    if notconv > max(3, n // 40):
+        ck.violation('%d of %d exact runs no longer reach restol within maxiter (none does on the pinned tree)' % (notconv, n),
+                     {'not_converged': notconv, 'runs': n, 'first_configurations': notconv_cfgs[:3]}, match={'kind': 'convergence_lost'})
     if budget_hits[0] + notconv > n // 2:
         ck.violation('most exact runs no longer converge / finish in time (%d not converged, %d over the time budget of %d): the property cannot be established'
                      % (notconv, budget_hits[0], n), {'not_converged': notconv, 'over_budget': budget_hits[0], 'runs': n},
@@ -237,8 +244,8 @@ def block_part(ck, rng, thorough):
     from harness import blockcase as bc
     cases = []
     for i in range(300 if thorough else 44):
-        # every fourth case exercises a predictor (fine_only / pfasst_burnin) instead of an iteration
-        c = bc.make_block_case(rng, i, mode=(0 if i % 4 else (1 + (i // 4) % 2)))
+        # every fourth case exercises a predictor (fine_only / pfasst_burnin) or two consecutive iterations instead of one iteration
+        c = bc.make_block_case(rng, i, mode=(0 if i % 4 else (1 + (i // 4) % 3)))
         if c:
             cases.append(c)
             m = c[0]
